@@ -20,6 +20,16 @@ CHECKS["C06"] = ("EXPLORE", MC, "explicit-state BFS of the real connection objec
    "For client, server and any-role connections, v3.1.1 and v5.0, automatic and manual responses, offline publishing on and off (plus v5 alias / Maximum Packet Size configurations), all histories over publishes QoS 0/1/2 in every status, every PUBACK/PUBREC/PUBCOMP for ids 1..2 (thorough 1..3; matching, wrong kind, wrong id, duplicate, v5 error codes), deferred manual PUBREL, erase, a second CONNACK, close and reconnect (clean / persistent, session present or not) are explored breadth-first on the real object to closure (window 2, thorough 3); on every transition the store model is compared with get_stored_packets() decoded by the reference codec, unexpected acknowledgements must be refused without changing session state, and the retransmission list after CONNACK must equal the model list (order, ids, DUP, full topic, no alias, oversize dropped).",
    "Bounded by the in-flight window and the alphabets listed in the evidence; two v5 alias configurations stop at a state cap in the quick tier (reported as bounded). Application contract of DESIGN §2.4. Trusts the verif_state hook, the reference codec and the reference model in rules.rs.",
    "DESIGN.md §3 C06")
+_EP_NOTE = "Bounded by the in-flight window and the alphabets / configuration grid listed in the evidence; application contract of DESIGN §2.4. Trusts the verif_state hook, the reference codec and the reference model in rules.rs."
+def _ep(pid, text, ref):
+    CHECKS[pid] = ("EXPLORE", MC, "explicit-state BFS of the real connection object against a reference model", text, _EP_NOTE, ref)
+_ep("C07", "Closure (all reachable states) of client/server/any connections, v3.1.1 and v5.0, automatic and manual responses, under peer QoS 2 PUBLISH ids 1..2 (DUP 0/1; v5 also frames that fail validation: unknown alias, Receive Maximum excess), PUBREL ids 1..3, local PUBREC success/error, close, clean / resumed / session-not-present reconnects; on every transition the exactly-once model (notified-since-last-PUBREL per id) decides whether the PUBLISH must be notified, suppressed + answered with PUBREC, or is refused, and get_qos2_publish_handled() must equal the model set.", "DESIGN.md §3 C07")
+_ep("C08", "Closure of the real connection against a packet-id ownership model: acquire / register / release for ids {0,1,2,3,max}, sends of PUBLISH QoS1/2, SUBSCRIBE, UNSUBSCRIBE in every status and under every refusal reason of the alphabet (not connected, too large, Receive Maximum, alias out of range, transport send failure), acknowledgements for ids 1..3, deferred PUBREL, close, clean/resumed reconnect; every NotifyPacketIdReleased must hit an in-use id exactly when the model says the exchange ended, and the snapshot's in-use set must equal the model set after every step. Plus scripted exhaustion of all 65 535 ids and u32 extremes.", "DESIGN.md §3 C08")
+_ep("C12", "Closure for peer Receive Maximum M in {1,2} (thorough {1,2,3}) and own maximum {1,2}: publishes QoS1/2 at and below the limit, success / error acknowledgements, erase, close, resume with stored packets, offline publishing; the flow model (incomplete exchanges of this connection incl. retransmitted ones) decides accept / ReceiveMaximumExceeded and the vacancy after every step; inbound excess must be answered with DISCONNECT 0x93. M = 65535 by one scripted path.", "DESIGN.md §3 C12")
+_ep("C13", "Closure for v5 client and server senders with peer Topic Alias Maximum 0/1/2 in manual, auto-map and auto-replace mode (Receive Maximum 1 so refusals interleave): every transmitted PUBLISH is resolved against an independent model of the receiver's alias table and must resolve to the topic the application asked for; stored copies carry the full topic and no alias; receive side: aliased PUBLISH delivered with the binding of this connection or rejected as Topic Alias invalid.", "DESIGN.md §3 C13")
+_ep("C14", "Closure for peer Maximum Packet Size L around every packet size of the alphabet (quick 6 values, thorough 2..14) x manual / auto-map / auto-replace, and own limit around inbound frame sizes: every RequestSendPacket (direct, automatic response, stored retransmission, alias-rewritten) must have size() and encoded length <= L; oversize stored packets dropped with id released; oversize inbound frames not delivered and answered with DISCONNECT 0x95.", "DESIGN.md §3 C14")
+_ep("C15", "Closure over keep-alive 0/1 (second connection with a different value), Server Keep Alive absent/0/2, override none/0/3, PINGRESP timeout 0/5, roles client/server/any, both versions: sends, receives, expiries of armed timers, interval changes, DISCONNECT each way, close, reconnect, deferred PUBREL while disconnected; the timer model derived from the event stream checks cancel-only-when-armed, nothing armed after close / DISCONNECT, no arming by local calls while disconnected, client re-arm with the prioritised interval, server 1.5 x keep-alive re-arm and never for 0, PINGRESP timer arm/cancel and the effect of every expiry.", "DESIGN.md §3 C15")
+_ep("C19", "The close-order rule (no RequestClose before a RequestSendPacket in one list; DISCONNECT / refusing CONNACK accompanied by a close request; keep-alive timeout on an established connection yields one) is evaluated on every event list of a closure run whose alphabet reaches every terminal path class (explicit DISCONNECT, refusing CONNACK, protocol errors, Receive Maximum exceeded, Topic Alias invalid, packet too large, CONNECT / CONNACK on an established connection, three timer expiries) for all roles and both versions; floors require each class to be observed.", "DESIGN.md §3 C19")
 NOT_YET = {}
 
 def main():
